@@ -482,4 +482,111 @@ Proof.
         eapply loop_rel_trans; eauto.
 Qed.
 
+(* ------------------------------------------------------------------ process_all_incoming_messages *)
+Lemma seq_sub_pred u : 0 <= u < M16 -> seq_sub (wsub16 u 1) u = -1.
+Proof.
+  intro Hu. unfold seq_sub. apply offset_true_distance_pair; unfold WRAP_TOLERANCE; try lia.
+  - apply wsub16_range.
+  - unfold wsub16, M16 in *. lia.
+Qed.
+
+(* calc_pipe's argument lies inside the table *)
+Definition pipe_arg_in (s : vsock) : Prop :=
+  Z.max (seq_sub (v_last_sent_seq_nr s) (ss_snd_una (v_segs s))) 0 <= len_z (ss_segs (v_segs s)).
+
+Lemma ps_pipe_arg (s : vsock) :
+  seg_inv (v_segs s) -> ps_for (v_last_sent_seq_nr s) (v_segs s) -> pipe_arg_in s.
+Proof.
+  intros (_ & _ & _ & _ & Hu) H. unfold pipe_arg_in. specialize (H 0). unfold len_z in *.
+  replace (wadd16 (ss_snd_una (v_segs s)) (0 mod M16)) with (ss_snd_una (v_segs s)) in H
+    by (unfold wadd16, M16 in *; rewrite Z.mod_0_l by lia; rewrite Z.add_0_r, Z.mod_small; lia).
+  lia.
+Qed.
+
+Lemma acked_counts_x ti tm p q (s : vsock) :
+  vs_x ti tm p q s -> ef strict s -> pipe_arg_in s ->
+  vs_x ti tm p q (acked_counts_as_sent s) /\ ef strict (acked_counts_as_sent s) /\
+  pipe_arg_in (acked_counts_as_sent s) /\ loop_rel s (acked_counts_as_sent s).
+Proof.
+  intros Hx Hef Hp. unfold acked_counts_as_sent. destruct (seq_gt _ _).
+  - split; [exact Hx|]. split; [exact Hef|]. split; [|exact (loop_rel_refl s)].
+    unfold pipe_arg_in. vsimpl.
+    destruct Hx as [Hinv _]. destruct (inv_parts _ _ _ _ Hinv) as (_ & (_ & _ & _ & _ & Hu) & _).
+    rewrite (seq_sub_pred _ Hu). unfold len_z. lia.
+  - split; [exact Hx|]. split; [exact Hef|]. split; [exact Hp|apply loop_rel_refl].
+Qed.
+
+Lemma pa_tail_x ti tm q (s3 : vsock) :
+  vs_x ti tm 0 q s3 -> ef strict s3 -> pipe_arg_in s3 ->
+  spx strict
+    (match rv_phase (v_recovery s3) with
+     | Recovering rc =>
+         match calc_pipe (v_segs s3) (rc_high_rxt rc) (v_last_sent_seq_nr s3)
+                         (roundtrip_time (v_rtte s3)) (v_now s3) with
+         | None => SPanic
+         | Some (segs', pipe, recalc) =>
+             SOk (set_recovering (VSockRec.set_segs s3 segs')
+                    {| rc_recovery_point := rc_recovery_point rc; rc_high_rxt := rc_high_rxt rc;
+                       rc_total_retx := rc_total_retx rc; rc_pipe := pipe; rc_recalc := recalc;
+                       rc_cwnd := rc_cwnd rc |}) tt
+         end
+     | _ => SOk s3 tt
+     end)
+    (fun s4 _ => vs_x ti tm 0 q s4 /\ ef strict s4 /\ loop_rel s3 s4) (vs_xe ti tm q).
+Proof.
+  intros Hx Hef Hp.
+  destruct (rv_phase (v_recovery s3)) as [rp|d|rc]; try (cbn [spx]; split; [exact Hx|split; [exact Hef|apply loop_rel_refl]]).
+  destruct (calc_pipe_some (v_segs s3) (rc_high_rxt rc) (v_last_sent_seq_nr s3)
+              (roundtrip_time (v_rtte s3)) (v_now s3) Hp) as (t' & pp & rcl & E).
+  rewrite E. cbn [spx].
+  destruct (calc_pipe_ev _ _ _ _ _ _ _ _ E) as (V1 & V2 & V3 & V4).
+  pose proof Hx as [Hinv _]. destruct (inv_parts _ _ _ _ Hinv) as (I1 & I2 & I3 & I4 & I5 & I6 & I7 & I8).
+  unfold set_recovering. split.
+  - eapply x_update_segs; [exact Hx|..]; vsimpl; try reflexivity; try assumption.
+    eapply calc_pipe_inv; eauto.
+  - split; [unfold ef, emsg_free in *; vsimpl; exact Hef|].
+    unfold loop_rel, ss_mono; vsimpl; repeat (split; [reflexivity|]); lia.
+Qed.
+
+Lemma process_all_x ti tm q (s : vsock) :
+  vs_x ti tm 0 q s -> ef strict s -> v_state s <> SynReceived ->
+  ps_for (v_last_sent_seq_nr s) (v_segs s) -> fin_ps s ->
+  spx strict (process_all_incoming_messages cci s)
+      (fun s' _ => vs_x ti tm 0 q s' /\ ef strict s' /\ loop_rel s s') (vs_xe ti tm q).
+Proof.
+  intros Hx Hef Hst Hps Hfp. unfold process_all_incoming_messages.
+  eapply spx_bind.
+  { apply (recv_loop_x ti tm q).
+    - rewrite app_length. cbn [length]. lia.
+    - apply acc_ok_default.
+    - split; [exact Hx|]. split; [exact Hef|]. split; [exact Hst|]. split; [exact Hps|exact Hfp]. }
+  intros s1 [r early] (Hx1 & (Hs0 & Hb0 & Hz) & Hef1 & Hps1 & Hrel1). cbn [fst] in *.
+  set (s2 := if (0 <? ar_acked_segments r) || (0 <? ar_newly_sacked_segments r) then _ else s1).
+  assert (H2 : vs_x ti tm (ar_acked_bytes r) q s2 /\ ef strict s2 /\ loop_rel s s2 /\ pipe_arg_in s2).
+  { assert (Hp1 : pipe_arg_in s1) by (apply ps_pipe_arg; [apply (inv_parts _ _ _ _ (proj1 Hx1))|exact Hps1]).
+    unfold s2, restart_remote_inactivity_timer. destruct (_ || _); [|auto].
+    destruct (ss_segs (v_segs (set_rto_retransmissions s1 0))); [destruct (our_fin_if_unacked _)|];
+      (split; [exact Hx1|split; [exact Hef1|split; [exact Hrel1|exact Hp1]]]). }
+  clearbody s2. destruct H2 as (Hx2 & Hef2 & Hrel2 & Hp2).
+  eapply spx_bind with (Q1 := fun s3 (_ : unit) => vs_x ti tm 0 q s3 /\ ef strict s3 /\ loop_rel s s3 /\ pipe_arg_in s3).
+  - destruct (Z.ltb_spec 0 (ar_acked_segments r)) as [Hpos|Hneg].
+    + destruct (acked_counts_x _ _ _ _ _ Hx2 Hef2 Hp2) as (Hx2b & Hef2b & Hp2b & Hrel2b).
+      generalize dependent (acked_counts_as_sent s2). intros s2b Hx2b Hef2b Hp2b Hrel2b.
+      destruct (truncate_ok ti tm (ar_acked_bytes r) s2b (proj1 Hx2b)) as (tx1 & -> & Hinv3).
+      destruct (wake_writer tx1) as [tx2 w] eqn:Ew.
+      destruct (wake_writer_fields _ _ _ Ew) as (W1 & W2 & W3 & W4).
+      cbn [spx].
+      assert (Hx3 : vs_x ti tm 0 q (set_tx s2b tx1)) by (split; [exact Hinv3|exact (proj2 Hx2b)]).
+      destruct (inv_parts _ _ _ _ Hinv3) as (K1 & K2 & K3 & K4 & K5 & K6 & K7 & K8). vsimpl.
+      split; [unfold add_wakes; eapply x_update; [exact Hx3|..]; vsimpl; auto|].
+      split; [unfold ef, emsg_free, add_wakes in *; vsimpl; exact Hef2b|].
+      split; [eapply loop_rel_trans; [exact Hrel2|]; eapply loop_rel_trans; [exact Hrel2b|];
+              unfold loop_rel, ss_mono, add_wakes; vsimpl; repeat (split; [reflexivity|]); lia|].
+      exact Hp2b.
+    + cbn [spx]. assert (Hz0 : ar_acked_bytes r = 0) by (apply Hz; lia). rewrite Hz0 in Hx2. auto.
+  - intros s3 _ (Hx3 & Hef3 & Hrel3 & Hp3).
+    eapply spx_weaken; [exact (pa_tail_x ti tm q s3 Hx3 Hef3 Hp3)| |auto].
+    intros s4 _ (A1 & A2 & A3). split; [exact A1|]. split; [exact A2|eapply loop_rel_trans; eauto].
+Qed.
+
 End PollIn.
